@@ -22,11 +22,13 @@ struct Ctx {
     announce: bool,
 }
 
+/// The crate's own digit cut-off (public constant of the Float trait), so that the "sticky digit observed"
+/// coverage class follows the code under test instead of a number copied into the harness.
 fn max_digits(fmt: Fmt) -> u64 {
     if fmt.mant_bits == 52 {
-        769
+        <f64 as minimal_lexical::Float>::MAX_DIGITS as u64
     } else {
-        114
+        <f32 as minimal_lexical::Float>::MAX_DIGITS as u64
     }
 }
 
@@ -415,7 +417,7 @@ fn mode_f32_midpoints(ctx: &mut Ctx, stride: u64, shard: (u64, u64), frac_of_bud
             let p = sink::path();
             let pi = if p.fast { 0 } else if p.slow_neg { 1 } else if p.slow_pos { 2 } else if p.moderate { 3 } else { 4 };
             paths[pi] += 1;
-            if p.slow_digits == 115 {
+            if p.slow_digits == max_digits(fmt) + 1 {
                 paths[5] += 1;
             }
             let sampled = (k & 0xfff) == 1;
